@@ -171,8 +171,7 @@ fn first_char_diff(a: &[String], b: &[String]) -> String {
 }
 
 fn sort_mempools(a: &mut Sim, b: &mut Sim) {
-	a.chain.mempool.sort_by_key(|t| t.compute_txid());
-	b.chain.mempool.sort_by_key(|t| t.compute_txid());
+	align_mempools(a, b);
 }
 
 fn twin_inner(c: &TwinCase, ctx: &mut Ctx, a: &mut Sim, b: &mut Sim) -> CaseResult {
